@@ -14,7 +14,7 @@ RULE = ('Hypothesis: client in {ModbusTcpClient, serial rtu, serial ascii, seria
         '(ModbusIOException) or a response with the request\'s tid (TCP) / unit (serial framings) and function code fc or '
         'fc|0x80 whose fields equal the independent decode of a frame that entered the receive path during this call; when '
         'only the conformant reply is scripted, that reply is returned with exactly the scripted values. Non-trivial: a '
-        'foreign/stale frame in some script, or >=2 transactions; distinct by SHA-1. Serial clients are also built with generated options: handle_local_echo on a line that echoes every written byte, strict on/off, baud rate 9600..115200.')
+        'foreign/stale frame in some script, or >=2 transactions; distinct by SHA-1. Serial clients are also built with generated options: handle_local_echo on a line that echoes every written byte, strict on/off, baud rate 9600..115200. Stale frames may carry transaction id 0 / 0xFFFF or be exception replies to another function; two client objects may take turns; large replies (up to 125 registers / 2000 bits); sweep of 300 (thorough 700) transactions on one long-lived client of every kind.')
 ASSUMPTIONS = ['serial request units are drawn from 1..247 (0 is broadcast, 0 and 0xFF are documented wildcards of the unit filter)',
                'an exception raised by the call is not judged here (C13 owns "returns an error object instead of raising")',
                'binary transactions whose frames contain delimiter bytes are excluded (KF-BINARY-FRAMER-DELIMITER-BYTES)']
